@@ -6,7 +6,8 @@ from ..model import (walk, dotted, call_name, kwarg, unparse, short, UNKNOWN,
                      root_name, AnalysisError, calls_in, names_in,
                      stores_in_target)
 from ..cfg import cfg_of
-from ..flow import Deps, guards, must_pass, Exploration, loop_slice
+from ..flow import (Deps, guards, must_pass, Exploration, loop_slice,
+                    reaching_defs)
 from .. import idioms as I
 
 BASE  = ('agent/scheduler/base.py', 'AgentSchedulingComponent')
@@ -948,6 +949,8 @@ def r01_7(prog, rep, rid='R01.7'):
             a = g.nodes[tid].ast
             if isinstance(a, ast.Compare) and 'len(' in unparse(a):
                 continue
+            if isinstance(a, ast.Constant) and bool(a.value) == (lab == 'T'):
+                continue                # `if True:` guards nothing
             dep = {x for x in d.expr_depends(a) if x.isidentifier()}
             if not any(x.startswith('blocked_') for x in dep) or lab != 'T' \
                     and not isinstance(a, ast.Name):
@@ -974,13 +977,34 @@ def r01_8(prog, rep, rid='R01.8'):
              'task node list (moved, not copied)', minimum=2)
     f = prog.method(RM[0], RM[1], '_filter_nodes')
     rep.saw(f)
+    # local helpers (`def _reserve(reserved, n): ... reserved.append(...)`):
+    # their parameters stand for the arguments of each call site
+    local = {n.name: n for n in walk(f.node, nested=True)
+             if isinstance(n, ast.FunctionDef) and n is not f.node}
+
+    def sites(fnode, bind, depth=0):
+        for c in calls_in(fnode):
+            if isinstance(c.func, ast.Attribute) and c.func.attr in \
+                    ('append', 'extend', 'insert'):
+                recv = c.func.value
+                if isinstance(recv, ast.Name) and recv.id in bind:
+                    recv = bind[recv.id]
+                yield c, unparse(recv), fnode, bool(bind)
+            elif isinstance(c.func, ast.Name) and c.func.id in local and \
+                    depth < 3:
+                h = local[c.func.id]
+                params = [a.arg for a in h.args.posonlyargs + h.args.args]
+                b = {}
+                for p, a in zip(params, c.args):
+                    b[p] = bind.get(a.id, a) if isinstance(a, ast.Name) else a
+                for k in c.keywords:
+                    if k.arg in params:
+                        b[k.arg] = bind.get(k.value.id, k.value) \
+                            if isinstance(k.value, ast.Name) else k.value
+                yield from sites(h, b, depth + 1)
+
     n = 0
-    d = Deps(f.node)
-    for c in calls_in(f.node):
-        if not (isinstance(c.func, ast.Attribute) and c.func.attr in
-                ('append', 'extend', 'insert')):
-            continue
-        recv = unparse(c.func.value)
+    for c, recv, fnode, bound in sites(f.node, {}):
         if not (recv.endswith('.agent_node_list') or
                 recv.endswith('.service_node_list')):
             continue
@@ -992,7 +1016,7 @@ def r01_8(prog, rep, rid='R01.8'):
                 unparse(arg.func.value).endswith('.node_list'):
             moved = True
         elif isinstance(arg, ast.Name):
-            for a in walk(f.node):
+            for a in walk(fnode):
                 if isinstance(a, ast.Assign) and any(
                         isinstance(t, ast.Name) and t.id == arg.id
                         for t in a.targets) and \
@@ -1002,7 +1026,8 @@ def r01_8(prog, rep, rid='R01.8'):
                         unparse(a.value.func.value).endswith('.node_list'):
                     moved = True
         rep.check(moved, rid, f, '%s receives a node pop()ped from node_list'
-                  % recv, construct=c,
+                  % recv, construct='reserve:%s' % recv.split('.')[-1]
+                  if bound else c,
                   message='%s receives a node that stays in node_list: the '
                   'agent/service node is also offered to tasks' % recv,
                   loc=f.loc(c),
@@ -2366,6 +2391,917 @@ def r01_13(prog, rep, rid='R01.13'):
 
 
 # ------------------------------------------------------------------------------
+# shared by R01.14 / R01.15 / R01.16: names resolved through their reaching
+# definitions; truth of tests under an assignment to a few atoms
+#
+class _Resolver:
+    """local names of one function, resolved flow-sensitively through their
+    reaching definitions (flow.reaching_defs)"""
+
+    def __init__(self, f):
+        self.f = f
+        self.g = cfg_of(f)
+        self.smap = I.stmt_node_map(self.g)
+        self._rd = {}
+
+    def at(self, a):
+        n = self.smap.get(id(a))
+        if n is None:
+            raise AnalysisError('UNRECOGNISED-IDIOM %s: `%s` is not part of a '
+                                'statement of the function' % (self.f.where,
+                                                               short(a, 40)))
+        return n.id
+
+    def defs(self, name, nid):
+        key = (name, nid)
+        if key not in self._rd:
+            self._rd[key] = reaching_defs(self.g, name, nid)
+        return self._rd[key]
+
+    def def_ids(self, name, nid):
+        return frozenset(n.id for n, v in self.defs(name, nid))
+
+    def single(self, e, nid, depth=0):
+        """(expression, node id) a plain name stands for when it has exactly
+        one reaching definition `name = <expr>`; wrappers int()/float() are
+        looked through; anything else is returned as it is"""
+        while depth < 8:
+            depth += 1
+            if isinstance(e, ast.Call) and isinstance(e.func, ast.Name) and \
+                    e.func.id in ('int', 'float') and len(e.args) == 1 and \
+                    not e.keywords:
+                e = e.args[0]
+                continue
+            if isinstance(e, ast.Name):
+                d = self.defs(e.id, nid)
+                if len(d) == 1 and d[0][1] is not None and \
+                        isinstance(d[0][0].ast, (ast.Assign, ast.AnnAssign)) \
+                        and isinstance(_single_target(d[0][0].ast), ast.Name):
+                    e, nid = d[0][1], d[0][0].id
+                    continue
+            break
+        return e, nid
+
+
+def _single_target(st):
+    if isinstance(st, ast.Assign):
+        return st.targets[0] if len(st.targets) == 1 else None
+    return st.target
+
+
+def _cmp_range(lo, hi, op, c):
+    """truth of `n <op> c` for an integer n known to lie in [lo, hi]
+    (hi None: unbounded); None when both outcomes are possible"""
+    if isinstance(op, ast.Gt):
+        return True if lo > c else False if hi is not None and hi <= c \
+            else None
+    if isinstance(op, ast.GtE):
+        return True if lo >= c else False if hi is not None and hi < c \
+            else None
+    if isinstance(op, ast.Lt):
+        return True if hi is not None and hi < c else False if lo >= c \
+            else None
+    if isinstance(op, ast.LtE):
+        return True if hi is not None and hi <= c else False if lo > c \
+            else None
+    if isinstance(op, (ast.Eq, ast.NotEq)):
+        v = True if lo == hi == c else False if c < lo or (
+            hi is not None and c > hi) else None
+        if v is None or isinstance(op, ast.Eq):
+            return v
+        return not v
+    return None
+
+
+class _Truth:
+    """Three valued truth of the tests of one function under an assignment
+    {atom key: bool} ("this value is truthy / falsy"), and the cfg nodes that
+    can still be reached when every test decided by the assignment only takes
+    the edge it then takes.  `atom(expr, node id)` names the expressions the
+    assignment is about.  Tests the assignment does not decide keep both
+    edges, so a node reported as unreachable is unreachable for every input
+    that satisfies the assignment."""
+
+    def __init__(self, res, atom):
+        self.res = res
+        self.atom = atom
+
+    def ev(self, e, nid, asg, depth=0):
+        if depth > 12:
+            return None
+        k = self.atom(e, nid)
+        if k is not None:
+            return asg.get(k)
+        if isinstance(e, ast.Constant):
+            return bool(e.value)
+        if isinstance(e, ast.Name):
+            v, vn = self.res.single(e, nid)
+            if v is e:
+                return None
+            return self.ev(v, vn, asg, depth + 1)
+        if isinstance(e, ast.BoolOp):
+            vals = [self.ev(v, nid, asg, depth + 1) for v in e.values]
+            if isinstance(e.op, ast.And):
+                return False if False in vals else \
+                    True if all(v is True for v in vals) else None
+            return True if True in vals else \
+                False if all(v is False for v in vals) else None
+        if isinstance(e, ast.UnaryOp) and isinstance(e.op, ast.Not):
+            v = self.ev(e.operand, nid, asg, depth + 1)
+            return None if v is None else not v
+        if isinstance(e, ast.Call) and isinstance(e.func, ast.Name) and \
+                e.func.id in ('bool', 'len', 'list', 'tuple') and \
+                len(e.args) == 1 and not e.keywords:
+            return self.ev(e.args[0], nid, asg, depth + 1)
+        if isinstance(e, ast.Compare) and len(e.ops) == 1:
+            l, r, op = e.left, e.comparators[0], e.ops[0]
+            if not (isinstance(r, ast.Constant) and
+                    isinstance(r.value, (int, float)) and
+                    not isinstance(r.value, bool)):
+                return None
+            c = r.value
+            if isinstance(l, ast.Call) and isinstance(l.func, ast.Name) and \
+                    l.func.id == 'len' and len(l.args) == 1:
+                v = self.ev(l.args[0], nid, asg, depth + 1)
+                if v is None:
+                    return None
+                return _cmp_range(1, None, op, c) if v else \
+                    _cmp_range(0, 0, op, c)
+            v = self.ev(l, nid, asg, depth + 1)
+            if v is None:
+                return None
+            if v:           # a non-zero amount / non-empty container
+                if c == 0 and isinstance(op, ast.Eq):
+                    return False
+                if c == 0 and isinstance(op, ast.NotEq):
+                    return True
+                return None
+            # zero, empty or None
+            if isinstance(op, ast.Gt) and c >= 0 or \
+                    isinstance(op, ast.GtE) and c > 0 or \
+                    isinstance(op, ast.Lt) and c <= 0:
+                return False
+            return None
+        return None
+
+    def reach(self, asg, decided=None):
+        g = self.res.g
+        seen = set()
+        todo = [g.entry.id]
+        while todo:
+            x = todo.pop()
+            if x in seen:
+                continue
+            seen.add(x)
+            n = g.nodes[x]
+            skip = None
+            if n.kind == 'test':
+                v = self.ev(n.ast, x, asg)
+                skip = None if v is None else 'F' if v else 'T'
+                if v is not None and decided is not None:
+                    decided.append((n.ast, v))
+            elif n.kind == 'for':
+                if self.ev(n.ast.iter, x, asg) is False:
+                    skip = 'iter'
+                    if decided is not None:
+                        decided.append((n.ast.iter, False))
+            for e in g.succ[x]:
+                if e.label != skip:
+                    todo.append(e.dst)
+        return seen
+
+
+def _assignments(keys, fixed):
+    """all {key: bool} over `keys` that extend `fixed`"""
+    free = [k for k in keys if k not in fixed]
+    for bits in range(1 << len(free)):
+        a = dict(fixed)
+        for i, k in enumerate(free):
+            a[k] = bool(bits >> i & 1)
+        yield a
+
+
+def _const_values(res, key):
+    """the constants a symbolic key ('v', name, def ids) ranges over when all
+    its definitions are loops over a literal tuple / list of constants"""
+    vals = set()
+    if not key[2]:
+        return None
+    for nid in key[2]:
+        n = res.g.nodes[nid]
+        if n.kind != 'for' or not isinstance(n.ast.target, ast.Name) or \
+                not isinstance(n.ast.iter, (ast.Tuple, ast.List)) or \
+                not all(isinstance(x, ast.Constant) for x in n.ast.iter.elts):
+            return None
+        vals |= {x.value for x in n.ast.iter.elts}
+    return vals
+
+
+def _key_text(k):
+    return repr(k[1]) if k[0] == 'c' else k[1]
+
+
+# ------------------------------------------------------------------------------
+# R01.14  the kind that is debited is the kind of the operand
+#
+class _KindFlow:
+    """One occupancy writer (`_change_slot_states` of a scheduler class, or
+    Node.allocate_slot / deallocate_slot): its stores below a node object,
+    keyed by resource kind, and the fields of the slot that flow into them."""
+
+    def __init__(self, prog, f, is_node_root, slot_param, slot_is_list):
+        self.prog = prog
+        self.f = f
+        self.res = _Resolver(f)
+        self.is_node_root = is_node_root    # name -> bool
+        self.slot_is_list = slot_is_list
+        self.param = slot_param
+        self.lists = set()
+        if slot_is_list:
+            self.lists.add(slot_param)
+            changed = True
+            while changed:
+                changed = False
+                for n in walk(f.node):
+                    if isinstance(n, ast.Assign) and len(n.targets) == 1 and \
+                            isinstance(n.targets[0], ast.Name) and \
+                            n.targets[0].id not in self.lists and \
+                            not isinstance(n.value, ast.Subscript) and any(
+                            isinstance(x, ast.Name) and x.id in self.lists
+                            for x in walk(n.value)):
+                        self.lists.add(n.targets[0].id)
+                        changed = True
+
+    # -- what is a slot ---------------------------------------------------
+    def _iter_is_list(self, it):
+        if isinstance(it, ast.Name):
+            return it.id in self.lists
+        if isinstance(it, ast.Call) and isinstance(it.func, ast.Name) and \
+                it.func.id in ('list', 'tuple', 'reversed', 'sorted', 'iter',
+                               'enumerate') and it.args:
+            return self._iter_is_list(it.args[0])
+        return False
+
+    def is_slot(self, e, nid, depth=0):
+        """expression denotes one slot"""
+        if depth > 4:
+            return False
+        if isinstance(e, ast.Subscript) and isinstance(e.value, ast.Name) \
+                and e.value.id in self.lists and \
+                not isinstance(e.slice, ast.Slice):
+            return True
+        if not isinstance(e, ast.Name):
+            return False
+        d = self.res.defs(e.id, nid)
+        if not d:
+            return not self.slot_is_list and e.id == self.param
+        hit = False
+        for n, v in d:
+            if n.kind == 'for':
+                t = n.ast.target
+                en = isinstance(n.ast.iter, ast.Call) and \
+                    dotted(n.ast.iter.func) == 'enumerate'
+                mine = (isinstance(t, ast.Name) and t.id == e.id and not en) \
+                    or (en and isinstance(t, ast.Tuple) and t.elts and
+                        isinstance(t.elts[-1], ast.Name) and
+                        t.elts[-1].id == e.id)
+                if mine and self._iter_is_list(n.ast.iter):
+                    hit = True
+                    continue
+                return False
+            if v is not None and isinstance(v, ast.Constant) and \
+                    v.value is None:
+                continue
+            if v is not None and self.is_slot(v, n.id, depth + 1):
+                hit = True
+                continue
+            return False
+        return hit
+
+    def key(self, e, nid):
+        """kind key of one access step `X[k]` / `X.k`: ('c', kind) for one of
+        the four kinds, ('v', name, defs) for a variable key, None otherwise"""
+        if isinstance(e, ast.Attribute):
+            return ('c', e.attr) if e.attr in KINDS else None
+        s = e.slice
+        if isinstance(s, ast.Constant):
+            return ('c', s.value) if s.value in KINDS else None
+        if isinstance(s, ast.Name):
+            return ('v', s.id, self.res.def_ids(s.id, nid))
+        return None
+
+    def slot_read(self, e, nid):
+        if isinstance(e, (ast.Subscript, ast.Attribute)) and \
+                self.is_slot(e.value, nid):
+            return self.key(e, nid)
+        return None
+
+    # -- slot fields an expression is computed from -----------------------
+    def reads(self, e, nid, out, seen, env):
+        if isinstance(e, (ast.Subscript, ast.Attribute)) and \
+                not (isinstance(e.value, ast.Name) and e.value.id in env) \
+                and self.is_slot(e.value, nid):
+            k = self.key(e, nid)
+            if k is not None:
+                out.append((k, e))
+            return
+        if isinstance(e, ast.Name):
+            if not isinstance(e.ctx, ast.Load):
+                return
+            if e.id in env:
+                it, env2 = env[e.id]
+                self.reads(it, nid, out, seen, env2)
+                return
+            if (e.id, nid) in seen:
+                return
+            seen.add((e.id, nid))
+            for n, v in self.res.defs(e.id, nid):
+                if v is not None:
+                    self.reads(v, n.id, out, seen, {})
+                elif n.kind == 'for':
+                    self.reads(n.ast.iter, n.id, out, seen, {})
+                elif isinstance(n.ast, ast.AugAssign):
+                    self.reads(n.ast.value, n.id, out, seen, {})
+                    self.reads(_load(n.ast.target), n.id, out, seen, {})
+                elif isinstance(n.ast, ast.Assign):
+                    self.reads(n.ast.value, n.id, out, seen, {})
+            return
+        if isinstance(e, (ast.ListComp, ast.SetComp, ast.GeneratorExp,
+                          ast.DictComp)):
+            env2 = dict(env)
+            for gen in e.generators:
+                bound = (gen.iter, dict(env2))
+                for nm in stores_in_target(gen.target):
+                    env2[nm] = bound
+                for c in gen.ifs:
+                    self.reads(c, nid, out, seen, env2)
+            for part in ([e.key, e.value] if isinstance(e, ast.DictComp)
+                         else [e.elt]):
+                self.reads(part, nid, out, seen, env2)
+            return
+        if isinstance(e, ast.Lambda):
+            return
+        for c in ast.iter_child_nodes(e):
+            if isinstance(c, ast.expr):
+                self.reads(c, nid, out, seen, env)
+            elif isinstance(c, ast.keyword):
+                self.reads(c.value, nid, out, seen, env)
+
+    # -- stores below a node object ---------------------------------------
+    def node_store(self, target, nid):
+        """(kind key, [expressions of the access steps below the kind]) of a
+        store below a node object; None when the target is something else"""
+        steps = []
+        e = target
+        for _ in range(6):
+            while isinstance(e, (ast.Subscript, ast.Attribute)):
+                steps.append(e)
+                e = e.value
+            if not isinstance(e, ast.Name):
+                return None
+            if e.id == 'self' or self.is_node_root(e.id):
+                break
+            if self.is_slot(e, nid):
+                return None
+            v, vn = self.res.single(e, nid)
+            if v is e or not I.is_path(v):
+                return None
+            e = v
+        else:
+            return None
+        steps.reverse()
+        if e.id == 'self':
+            if self.is_node_root('self'):
+                pass                            # Node method: self.<kind>...
+            elif len(steps) >= 2 and isinstance(steps[0], ast.Attribute) and \
+                    steps[0].attr == 'nodes' and \
+                    isinstance(steps[1], ast.Subscript):
+                steps = steps[2:]               # self.nodes[i]<kind>...
+            else:
+                return None
+        if not steps:
+            return None
+        k = self.key(steps[0], nid)
+        if k is None:
+            return None
+        below = [s.slice for s in steps[1:] if isinstance(s, ast.Subscript)]
+        return k, below
+
+    def stores(self):
+        out = []
+        for kind, target, stmt in I.stores(self.f.node):
+            if kind not in ('assign', 'aug') or id(stmt) not in self.res.smap:
+                continue
+            nid = self.res.at(stmt)
+            ns = self.node_store(target, nid)
+            if ns is None:
+                continue
+            out.append((stmt, target, nid, ns[0], ns[1]))
+        return out
+
+    def same_key(self, a, b):
+        """True / False / None (cannot be decided)"""
+        if a[0] == 'c' and b[0] == 'c':
+            return a[1] == b[1]
+        if a[0] == 'v' and b[0] == 'v':
+            if a[1] == b[1] and a[2] == b[2]:
+                return True
+            va, vb = _const_values(self.res, a), _const_values(self.res, b)
+            if va is not None and vb is not None and not (va & vb):
+                return False
+            return None
+        c, v = (a, b) if a[0] == 'c' else (b, a)
+        vals = _const_values(self.res, v)
+        if vals is None:
+            return None
+        return False if vals != {c[1]} else True
+
+
+def _kind_writers(prog):
+    """[(label, FuncInfo, _KindFlow)] of the anchored occupancy writers"""
+    out = []
+    base, classes = sched_classes(prog)
+    seen = set()
+    for K in classes:
+        f = prog.find_method(K, '_change_slot_states')
+        if f is None:
+            raise AnalysisError('anchor %s._change_slot_states not found'
+                                % K.name)
+        if id(f) in seen:
+            continue
+        seen.add(id(f))
+        methods = I.class_methods(prog, K, stop_at=base)
+        al = I.Aliases(prog, K, methods, 'self.nodes')
+        rooted = al.rooted.get(f.name, set())
+        params = [p for p in f.params if p != 'self']
+        if not params:
+            raise AnalysisError('UNRECOGNISED-IDIOM %s: parameters' % f.where)
+        out.append((f, _KindFlow(prog, f, lambda nm, r=rooted: nm in r,
+                                 params[0], True)))
+    node = prog.cls(*NODE)
+    for K in [node] + [k for k in prog.subclasses(node, strict=True)
+                       if k is not node]:
+        for mname in ('allocate_slot', 'deallocate_slot'):
+            f = K.methods.get(mname)
+            if f is None:
+                if K is node:
+                    raise AnalysisError('anchor Node.%s not found' % mname)
+                continue
+            params = [p for p in f.params if p != 'self']
+            if not params:
+                raise AnalysisError('UNRECOGNISED-IDIOM %s: parameters'
+                                    % f.where)
+            out.append((f, _KindFlow(prog, f, lambda nm: nm == 'self',
+                                     params[0], False)))
+    return out
+
+
+def r01_14(prog, rep, rid='R01.14'):
+    rep.rule(rid, 'occupancy writers (_change_slot_states, Node.allocate_slot '
+             '/ deallocate_slot): what is written to a node\'s cores / gpus / '
+             'lfs / mem is computed from the same-named field of the slot, '
+             'and the write is reached whenever that field is non-zero',
+             minimum=24)
+    for f, kf in _kind_writers(prog):
+        rep.saw(f)
+        res = kf.res
+        stores = kf.stores()
+        if not stores:
+            raise AnalysisError('UNRECOGNISED-IDIOM %s: no store below a node '
+                                'object' % f.where)
+        # the slot fields tests of this function are about
+        atoms = {}
+        for n in res.g.nodes:
+            if n.kind != 'test':
+                continue
+            got = []
+            kf.reads(n.ast, n.id, got, set(), {})
+            for k, e in got:
+                atoms.setdefault(k, e)
+        truth = _Truth(res, kf.slot_read)
+        written = set()
+        for stmt, target, nid, K, below in stores:
+            vals = {K[1]} if K[0] == 'c' else _const_values(res, K)
+            written |= set(KINDS) if vals is None else vals
+        if not set(KINDS) <= written:
+            raise AnalysisError('R01.14: %s writes only the kinds %s of a '
+                                'node' % (f.where, sorted(written)))
+        for stmt, target, nid, K, below in stores:
+            got = []
+            for e in below + [stmt.value]:
+                kf.reads(e, nid, got, set(), {})
+            if not got:
+                raise AnalysisError(
+                    'UNRECOGNISED-IDIOM %s: `%s` writes the node\'s %s but '
+                    'neither the amount nor the index is taken from the slot'
+                    % (f.where, short(stmt, 60), _key_text(K)))
+            wrong = undecided = None
+            for k, e in got:
+                s = kf.same_key(K, k)
+                if s is False and wrong is None:
+                    wrong = (k, e)
+                elif s is None and undecided is None:
+                    undecided = (k, e)
+            if wrong is None and undecided is not None:
+                raise AnalysisError(
+                    'UNRECOGNISED-IDIOM %s: cannot decide whether the key of '
+                    '`%s` is the kind written by `%s`'
+                    % (f.where, short(undecided[1], 40), short(stmt, 60)))
+            kt = _key_text(K)
+            what = 'amount' if K[1] in ('lfs', 'mem') else \
+                'index' if K[0] == 'c' else 'index / amount'
+            rep.check(wrong is None, rid, f,
+                      '%s: `%s` takes its %s from the slot\'s %s'
+                      % (f.qual, short(stmt, 50), what, kt),
+                      construct='%s:%s:%s' % (f.qual, kt, _store_op(stmt)),
+                      message='%s: `%s` changes the node\'s %s by what the '
+                      'slot holds of another kind (`%s`): the %s booked on '
+                      'the node no longer follows the %s the tasks hold, so '
+                      'the search (which tests the node\'s free %s) admits '
+                      'tasks the node has no room for'
+                      % (f.qual, short(stmt, 60), kt,
+                         short(wrong[1], 40) if wrong else '', kt, kt, kt),
+                      loc=f.loc(stmt),
+                      history='node with mem 1024, four tasks with mem=600 '
+                      'and lfs=0: each grant debits the node\'s mem by the '
+                      'slot\'s lfs (0), all four are placed on the node: '
+                      '2400 held > 1024' if kt == "'mem'" else
+                      'two tasks each asking for most of the node\'s %s (and '
+                      'none of the kind `%s` names) are both placed on the '
+                      'node' % (kt, short(wrong[1], 30) if wrong else ''))
+            # reached whenever the slot holds something of the kind
+            keys = [k for k in atoms]
+            if not keys:
+                rep.ok(rid, f, '%s: `%s` is not conditional on a field of '
+                       'the slot' % (f.qual, short(stmt, 50)), f.loc(stmt))
+                continue
+            if any(kf.same_key(K, k) is None for k in keys):
+                raise AnalysisError(
+                    'UNRECOGNISED-IDIOM %s: tests on slot fields with '
+                    'constant and variable keys guard `%s`'
+                    % (f.where, short(stmt, 60)))
+            fixed = {k: True for k in keys if kf.same_key(K, k)}
+            fixed[K] = True
+            lost = None
+            for asg in _assignments(keys, fixed):
+                decided = []
+                if nid not in truth.reach(asg, decided):
+                    lost = (asg, decided)
+                    break
+            why = ''
+            if lost:
+                why = ', '.join('`%s` is %s' % (short(atoms[k], 30),
+                                                'non-zero' if v else 'zero')
+                                for k, v in sorted(lost[0].items(),
+                                                   key=lambda x: str(x[0]))
+                                if k in atoms)
+            rep.check(lost is None, rid, f,
+                      '%s: `%s` is reached whenever the slot\'s %s is '
+                      'non-zero' % (f.qual, short(stmt, 50), kt),
+                      construct='%s:%s:%s:guard' % (f.qual, kt,
+                                                    _store_op(stmt)),
+                      message='%s: `%s` is skipped for a slot whose %s is '
+                      'non-zero (%s): the test that guards it looks at '
+                      'another field of the slot, so the %s a task holds is '
+                      'not booked on the node and is granted again'
+                      % (f.qual, short(stmt, 60), kt, why, kt),
+                      loc=f.loc(stmt),
+                      history='a task with %s > 0 and zero of the kind the '
+                      'guard tests is granted: the node\'s free %s is '
+                      'unchanged; further tasks asking for %s are placed on '
+                      'the same node beyond its capacity' % (kt, kt, kt))
+
+
+def _store_op(stmt):
+    if isinstance(stmt, ast.AugAssign):
+        return type(stmt.op).__name__
+    return 'set'
+
+
+# ------------------------------------------------------------------------------
+# R01.15  blocked cores are marked whenever cores are blocked (guard strength)
+#
+def _blocked_atom(res):
+    """atom recogniser: a local name whose only reaching definition reads the
+    config entry 'blocked_cores' / 'blocked_gpus'"""
+    def atom(e, nid):
+        if not isinstance(e, ast.Name):
+            return None
+        d = res.defs(e.id, nid)
+        if len(d) != 1 or d[0][1] is None:
+            return None
+        for x in walk(d[0][1]):
+            if isinstance(x, ast.Constant) and isinstance(x.value, str) and \
+                    x.value.startswith('blocked_') and \
+                    x.value[8:] in ('cores', 'gpus'):
+                return ('blocked', x.value[8:])
+        return None
+    return atom
+
+
+def r01_15(prog, rep, rid='R01.15'):
+    rep.rule(rid, 'the statement that marks blocked cores (gpus) DOWN is '
+             'reached whenever the configured list of blocked cores (gpus) is '
+             'not empty, whatever the other list holds', minimum=2)
+    free, busy, down = consts(prog)
+    f = prog.method(RM[0], RM[1], '_init_from_scratch')
+    rep.saw(f)
+    res = _Resolver(f)
+    atom = _blocked_atom(res)
+    truth = _Truth(res, atom)
+    marks = {}
+    for k, target, stmt in I.stores(f.node):
+        if k != 'assign' or not isinstance(target, ast.Subscript) or \
+                id(stmt) not in res.smap:
+            continue
+        v = prog.fold(f.module, stmt.value)
+        if v is UNKNOWN or not (v is down if down is None else v == down):
+            continue
+        e = target
+        kinds = set()
+        while isinstance(e, (ast.Subscript, ast.Attribute)):
+            if isinstance(e, ast.Subscript) and \
+                    isinstance(e.slice, ast.Constant) and \
+                    e.slice.value in ('cores', 'gpus'):
+                kinds.add(e.slice.value)
+            if isinstance(e.value, ast.Name):
+                v2, vn = res.single(e.value, res.at(stmt))
+                if v2 is not e.value and I.is_path(v2):
+                    e = v2
+                    continue
+            e = e.value
+        for kd in kinds:
+            marks.setdefault(kd, []).append(stmt)
+    if not marks:
+        raise AnalysisError('R01.15: no statement of %s marks a core / gpu '
+                            'as rpc.DOWN' % f.where)
+    known = set()
+    for n in res.g.nodes:
+        roots = [n.ast] if n.kind == 'test' else \
+            [n.ast.iter] if n.kind == 'for' else []
+        for r in roots:
+            for x in walk(r):
+                a = atom(x, n.id)
+                if a:
+                    known.add(a)
+                elif isinstance(x, ast.Name):
+                    # a hoisted test: `both = bc and bg ; if both:`
+                    v, vn = res.single(x, n.id)
+                    for y in (walk(v) if v is not x else ()):
+                        a = atom(y, vn)
+                        if a:
+                            known.add(a)
+    for kd in sorted(marks):
+        me = ('blocked', kd)
+        if me not in known:
+            # nothing on the way to the marking tests or iterates the list
+            raise AnalysisError(
+                'UNRECOGNISED-IDIOM %s: the marking of blocked %s does not '
+                'iterate / test the configured list' % (f.where, kd))
+        lost = None
+        for asg in _assignments(sorted(known), {me: True}):
+            decided = []
+            r = truth.reach(asg, decided)
+            if not any(res.at(s) in r for s in marks[kd]):
+                lost = (asg, decided)
+                break
+        other = 'gpus' if kd == 'cores' else 'cores'
+        why = ''
+        if lost:
+            why = '; '.join('`%s` is %s' % (short(t, 40), v)
+                            for t, v in lost[1])
+        rep.check(lost is None, rid, f,
+                  'blocked %s are marked DOWN whenever blocked_%s is not '
+                  'empty' % (kd, kd), construct='DOWN:%s:reached' % kd,
+                  message='%s: with blocked %s configured and %s the '
+                  'statement `%s` is never reached (%s): the blocked %s stay '
+                  'FREE in the node list (and %s_per_node is not reduced), '
+                  'the scheduler hands them to tasks'
+                  % (f.qual, kd, ', '.join(
+                      'blocked_%s %s' % (k[1], 'set' if v else 'empty')
+                      for k, v in sorted(lost[0].items()) if k != me)
+                      if lost else '', short(marks[kd][0], 50), why, kd, kd),
+                  loc=f.loc(marks[kd][0]),
+                  history='platform with system_architecture.blocked_%s = '
+                  '[0, 1] and no blocked_%s: node map shows the two %s as '
+                  'free, the first task is granted %s 0 of node 0'
+                  % (kd, other, kd, kd[:-1]))
+
+
+# ------------------------------------------------------------------------------
+# R01.16  application-level release goes to the node the slot names
+#
+def _field_of(e, names):
+    """(base name, field) of `X.field` / `X['field']` with field in names"""
+    if isinstance(e, ast.Attribute) and isinstance(e.value, ast.Name) and \
+            e.attr in names:
+        return e.value.id, e.attr
+    if isinstance(e, ast.Subscript) and isinstance(e.value, ast.Name) and \
+            isinstance(e.slice, ast.Constant) and e.slice.value in names:
+        return e.value.id, e.slice.value
+    return None
+
+
+_NODE_ID = {'index': 'node_index', 'name': 'node_name'}
+
+
+def _release_receiver(res, call, slot):
+    """decide the receiver of `<R>.deallocate_slot(<slot>)`:
+    ('ok', text) | ('bad', text) ; unknown shapes raise"""
+    f, g = res.f, res.g
+    nid = res.at(call)
+    sdefs = res.def_ids(slot, nid)
+
+    def unknown(why):
+        raise AnalysisError('UNRECOGNISED-IDIOM %s: receiver of `%s`: %s'
+                            % (f.where, short(call, 50), why))
+
+    def names_slot_field(e, enid, field):
+        v, vn = res.single(e, enid)
+        fo = _field_of(v, (field,))
+        if fo and fo[0] == slot and res.def_ids(slot, vn) == sdefs:
+            return True
+        # mentioned somewhere inside a larger expression?
+        for x in walk(v):
+            fo = _field_of(x, tuple(_NODE_ID.values()))
+            if fo and fo[0] == slot:
+                return None
+        return False
+
+    def by_value(v, vnid):
+        if not isinstance(v, ast.Subscript):
+            unknown('`%s` is not an element of self.nodes' % short(v, 40))
+        cont, cn = res.single(v.value, vnid)
+        ctext = unparse(cont)
+        if ctext == 'self.nodes':
+            field = 'node_index'
+        elif ctext == 'self.__nodes_by_name__':
+            field = 'node_name'
+        else:
+            unknown('container `%s`' % short(cont, 40))
+        r = names_slot_field(v.slice, vnid, field)
+        if r is None:
+            unknown('key `%s`' % short(v.slice, 40))
+        if r:
+            return 'ok', short(v, 50)
+        k, kn = res.single(v.slice, vnid)
+        src = ''
+        if isinstance(k, ast.Name):
+            d = res.defs(k.id, kn)
+            if any(slot in stores_in_target(n.ast.target) for n, x in d
+                   if n.kind == 'for'):
+                unknown('key bound together with the slot')
+            src = ' (bound by %s)' % '; '.join(
+                '`for %s in %s`' % (short(n.ast.target, 20),
+                                    short(n.ast.iter, 30))
+                if n.kind == 'for' else '`%s`' % short(n.ast, 40)
+                for n, x in d) if d else ' (not bound in the function)'
+        elif k is not v.slice:
+            src = ' (= `%s`)' % short(k, 40)
+        return 'bad', '`%s`: the key `%s`%s does not derive from the ' \
+            'slot that is released (expected its %s)' % (
+                short(v, 50), short(v.slice, 30), src, field)
+
+    def by_loop(name, fornode):
+        if unparse(fornode.ast.iter) != 'self.nodes' or not (
+                isinstance(fornode.ast.target, ast.Name)):
+            unknown('loop `for %s in %s`' % (short(fornode.ast.target, 20),
+                                             short(fornode.ast.iter, 30)))
+        for tid, lab in guards(g, nid):
+            a = g.nodes[tid].ast
+            if not (isinstance(a, ast.Compare) and len(a.ops) == 1 and
+                    isinstance(a.ops[0], (ast.Eq, ast.NotEq))):
+                continue
+            if lab != ('T' if isinstance(a.ops[0], ast.Eq) else 'F'):
+                continue
+            sides = [a.left, a.comparators[0]]
+            for x, y in (sides, sides[::-1]):
+                fx = _field_of(res.single(x, tid)[0], tuple(_NODE_ID))
+                fy = _field_of(res.single(y, tid)[0],
+                               tuple(_NODE_ID.values()))
+                if fx and fy and fx[0] == name and fy[0] == slot and \
+                        _NODE_ID[fx[1]] == fy[1]:
+                    return 'ok', 'node with %s == %s.%s' % (fx[1], slot, fy[1])
+        return 'bad', 'every node of `for %s in self.nodes` (no test ' \
+            'compares the node\'s index with the slot\'s node_index)' % name
+
+    R = call.func.value
+    if not isinstance(R, ast.Name):
+        return by_value(R, nid)
+    d = res.defs(R.id, nid)
+    if not d:
+        unknown('`%s` is not bound in the function' % R.id)
+    verdicts = []
+    for n, v in d:
+        if n.kind == 'for':
+            if slot in stores_in_target(n.ast.target):
+                unknown('node bound together with the slot')
+            verdicts.append(by_loop(R.id, n))
+        elif v is not None and isinstance(n.ast, (ast.Assign, ast.AnnAssign)):
+            if isinstance(v, ast.Constant) and v.value is None:
+                continue
+            verdicts.append(by_value(v, n.id))
+        else:
+            unknown('binding `%s`' % short(n.ast, 40))
+    if not verdicts:
+        unknown('`%s` is only bound to None' % R.id)
+    bad = [t for s, t in verdicts if s == 'bad']
+    if bad:
+        return 'bad', bad[0]
+    return 'ok', verdicts[0][1]
+
+
+def r01_16(prog, rep, rid='R01.16'):
+    rep.rule(rid, 'NodeList: deallocate_slot(slot) is sent to the node the '
+             'slot names (self.nodes[slot.node_index], or the node whose '
+             'index equals slot.node_index) - in the roll-back of find_slots '
+             'and in release_slots; Node.find_slot stamps the slot with its '
+             'own index', minimum=3)
+    nl = prog.cls(NODE[0], 'NodeList')
+    node = prog.cls(*NODE)
+    n_rel = 0
+    for K in [nl] + [k for k in prog.subclasses(nl, strict=True)
+                     if k is not nl]:
+        for mname, f in sorted(K.methods.items()):
+            if not isinstance(f.node, ast.FunctionDef):
+                continue
+            calls = [c for c in calls_in(f.node)
+                     if isinstance(c.func, ast.Attribute) and
+                     c.func.attr == 'deallocate_slot']
+            if not calls:
+                continue
+            rep.saw(f)
+            res = _Resolver(f)
+            for c in calls:
+                arg = c.args[0] if c.args else kwarg(c, 'slot')
+                if not isinstance(arg, ast.Name):
+                    raise AnalysisError(
+                        'UNRECOGNISED-IDIOM %s: argument of `%s`'
+                        % (f.where, short(c, 50)))
+                n_rel += 1
+                verdict, text = _release_receiver(res, c, arg.id)
+                rep.check(verdict == 'ok', rid, f,
+                          '%s: `%s` goes to %s' % (f.qual, short(c, 40), text),
+                          construct='%s:deallocate' % f.qual,
+                          message='%s releases the slot on another node than '
+                          'the one that holds it: `%s` is sent to %s.  The '
+                          'node that granted the slot keeps its cores '
+                          'occupied (leak) and the occupation of the cores '
+                          'with the same indexes on the other node drops '
+                          'below zero, so they pass `occupation <= BUSY - '
+                          'ro.occupation` once more than they should and are '
+                          'handed to two tasks' % (f.qual, short(c, 40), text),
+                          loc=f.loc(c),
+                          history='2 nodes x 2 cores: A(1 core) placed on '
+                          'node 0, B(4) finds 3 slots on both nodes, fails '
+                          'and is rolled back on the last node visited: node '
+                          '1 core 1 has occupation -1.0; A released; the '
+                          'next single-core requests D and E both get node 1 '
+                          'core 1')
+    if n_rel < 2:
+        raise AnalysisError('R01.16: fewer than two deallocate_slot calls in '
+                            'NodeList (roll-back of find_slots, release_slots)')
+    n_stamp = 0
+    for K in [node] + [k for k in prog.subclasses(node, strict=True)
+                       if k is not node]:
+        for mname, f in sorted(K.methods.items()):
+            if not isinstance(f.node, ast.FunctionDef):
+                continue
+            res = None
+            for c in calls_in(f.node):
+                if call_name(c) != 'Slot':
+                    continue
+                kw = kwarg(c, 'node_index')
+                if kw is None:
+                    if mname == 'find_slot':
+                        raise AnalysisError(
+                            'UNRECOGNISED-IDIOM %s: `%s` without node_index'
+                            % (f.where, short(c, 50)))
+                    continue
+                rep.saw(f)
+                res = res or _Resolver(f)
+                v, vn = res.single(kw, res.at(c))
+                fo = _field_of(v, ('index',))
+                n_stamp += 1
+                rep.check(bool(fo) and fo[0] == 'self', rid, f,
+                          '%s: the slot is stamped with node_index=self.index'
+                          % f.qual, construct='%s:Slot:node_index' % f.qual,
+                          message='%s allocates the slot on this node '
+                          '(self.allocate_slot) but stamps it with '
+                          'node_index=`%s`: NodeList.release_slots / the '
+                          'roll-back of find_slots address the node by '
+                          'slot.node_index and release on another node'
+                          % (f.qual, short(kw, 40)), loc=f.loc(c),
+                          history='find_slots on a 2 node list, slot found on '
+                          'node 1, released on the node its node_index names: '
+                          'node 1 stays occupied, the other node goes '
+                          'negative and is granted twice')
+    if not n_stamp:
+        raise AnalysisError('R01.16: Node.find_slot does not build a Slot '
+                            'with node_index')
+
+
+# ------------------------------------------------------------------------------
 #
 def run(prog, rep, tier):
     rep.decided = ('single writer of node occupancy (only _change_slot_states '
@@ -2401,6 +3337,9 @@ def run(prog, rep, tier):
     rep.attempt(r02_8, prog, rep, rid='R01.11')
     rep.attempt(r01_12, prog, rep)
     rep.attempt(r01_13, prog, rep)
+    rep.attempt(r01_14, prog, rep)
+    rep.attempt(r01_15, prog, rep)
+    rep.attempt(r01_16, prog, rep)
     if tier == 'thorough':
         # sweep: the single-writer rule over every scheduler class that
         # inherits the node-list representation
@@ -2542,6 +3481,57 @@ MUTATIONS = [
     dict(name='R01.12 limits list: lfs limit appended only when the node reports lfs', rules=('R01.12',), edits=[
         (_C, "        max_slots = n_slots\n        if lfs_per_slot:\n            max_slots = min(max_slots, int(node['lfs'] // lfs_per_slot))\n        if mem_per_slot:\n            max_slots = min(max_slots, int(node['mem'] // mem_per_slot))\n",
              "        limits = [n_slots]\n        if lfs_per_slot and node['lfs']:\n            limits.append(int(node['lfs'] // lfs_per_slot))\n        if mem_per_slot:\n            limits.append(int(node['mem'] // mem_per_slot))\n        max_slots = min(limits)\n")]),
+    dict(name='R01.14 mem debited by the lfs amount (seed C01-g2)', rules=('R01.14',), edits=[
+        (_B, "                    node['mem'] -= slot['mem']\n",
+             "                    node['mem'] -= slot['lfs']\n")]),
+    dict(name='R01.14 lfs credited by the mem amount', rules=('R01.14',), edits=[
+        (_B, "                    node['lfs'] += slot['lfs']\n",
+             "                    node['lfs'] += slot['mem']\n")]),
+    dict(name='R01.14 mem debit and credit both take the lfs amount (symmetric, R03.1 blind)', rules=('R01.14',), edits=[
+        (_B, "            if slot['mem']:\n                if new_state == rpc.BUSY:\n                    node['mem'] -= slot['mem']\n                else:\n                    node['mem'] += slot['mem']\n",
+             "            if slot['mem']:\n                if new_state == rpc.BUSY:\n                    node['mem'] -= slot['lfs']\n                else:\n                    node['mem'] += slot['lfs']\n")]),
+    dict(name='R01.14 jsrun: gpu states written from the core maps of the slot', rules=('R01.14',), edits=[
+        (_J, "            for gpu_map in slot['gpus']:\n",
+             "            for gpu_map in slot['cores']:\n")]),
+    dict(name='R01.14 mem update guarded by the lfs request', rules=('R01.14',), edits=[
+        (_B, "            if slot['mem']:\n                if new_state == rpc.BUSY:\n                    node['mem'] -= slot['mem']\n                else:\n                    node['mem'] += slot['mem']\n",
+             "            if slot['lfs']:\n                if new_state == rpc.BUSY:\n                    node['mem'] -= slot['mem']\n                else:\n                    node['mem'] += slot['mem']\n")]),
+    dict(name='R01.14 Node.deallocate_slot credits mem with the lfs of the slot', rules=('R01.14',), edits=[
+        (_N, '            if self.mem is not None: self.mem += slot.mem\n',
+             '            if self.mem is not None: self.mem += slot.lfs\n')]),
+    dict(name='R01.14 Node.allocate_slot: local `mem` read from slot.lfs', rules=('R01.14',), edits=[
+        (_N, '        mem   = slot.mem\n',
+             '        mem   = slot.lfs\n')]),
+    dict(name='R01.15 blocked cores only honoured when gpus are blocked, too (seed C01-g3)', rules=('R01.15',), edits=[
+        (_R, '        if blocked_cores or blocked_gpus:\n',
+             '        if blocked_cores and blocked_gpus:\n')]),
+    dict(name='R01.15 marking guarded by the gpu list only', rules=('R01.15',), edits=[
+        (_R, '        if blocked_cores or blocked_gpus:\n',
+             '        if blocked_gpus:\n')]),
+    dict(name='R01.15 conjunction hoisted into a local', rules=('R01.15',), edits=[
+        (_R, '        if blocked_cores or blocked_gpus:\n',
+             '        both = blocked_cores and blocked_gpus\n        if both:\n')]),
+    dict(name='R01.15 conjunction spelled with len()', rules=('R01.15',), edits=[
+        (_R, '        if blocked_cores or blocked_gpus:\n',
+             '        if len(blocked_cores) > 0 and len(blocked_gpus) > 0:\n')]),
+    dict(name='R01.15 core marking nested below the test of the gpu list', rules=('R01.15',), edits=[
+        (_R, "                for idx in blocked_cores:\n                    assert len(node['cores']) > idx\n                    node['cores'][idx] = rpc.DOWN\n",
+             "                if not blocked_gpus:\n                    continue\n                for idx in blocked_cores:\n                    assert len(node['cores']) > idx\n                    node['cores'][idx] = rpc.DOWN\n")]),
+    dict(name='R01.16 roll-back releases on the last node visited (seed C01-g5)', rules=('R01.16',), edits=[
+        (_N, '            for slot in slots:\n                node = self.nodes[slot.node_index]\n                node.deallocate_slot(slot)\n',
+             '            for slot in slots:\n                node = self.nodes[idx]\n                node.deallocate_slot(slot)\n')]),
+    dict(name='R01.16 release_slots releases on the node of the search cursor', rules=('R01.16',), edits=[
+        (_N, '        for slot in slots:\n\n            node = self.nodes[slot.node_index]\n            node.deallocate_slot(slot)\n',
+             '        for slot in slots:\n\n            node = self.nodes[self.__index__]\n            node.deallocate_slot(slot)\n')]),
+    dict(name='R01.16 roll-back as a search loop with the match test inverted', rules=('R01.16',), edits=[
+        (_N, '            for slot in slots:\n                node = self.nodes[slot.node_index]\n                node.deallocate_slot(slot)\n',
+             '            for slot in slots:\n                for node in self.nodes:\n                    if node.index != slot.node_index:\n                        node.deallocate_slot(slot)\n')]),
+    dict(name='R01.16 Node.find_slot stamps the slot with a constant node index', rules=('R01.16',), edits=[
+        (_N, '                        node_index=self.index, node_name=self.name)\n            self.allocate_slot(slot, _check=False)\n',
+             '                        node_index=0, node_name=self.name)\n            self.allocate_slot(slot, _check=False)\n')]),
+    dict(name='R01.8 local reserve helper copies the node instead of moving it', rules=('R01.8',), edits=[
+        (_R, '        if agent_nodes:\n\n            if not rm_info.agent_node_list:\n                for _ in range(agent_nodes):\n                    rm_info.agent_node_list.append(rm_info.node_list.pop())\n\n            assert agent_nodes == len(rm_info.agent_node_list)\n\n        if service_nodes:\n\n            if not rm_info.service_node_list:\n                for _ in range(service_nodes):\n                    rm_info.service_node_list.append(rm_info.node_list.pop())\n\n            assert service_nodes == len(rm_info.service_node_list)\n',
+             '        def _reserve(reserved, n_nodes):\n\n            if not n_nodes:\n                return\n\n            if not reserved:\n                for _ in range(n_nodes):\n                    reserved.append(rm_info.node_list[-1])\n\n            assert n_nodes == len(reserved)\n\n        _reserve(rm_info.agent_node_list,   agent_nodes)\n        _reserve(rm_info.service_node_list, service_nodes)\n')]),
 ]
 
 SILENT = [
@@ -2619,4 +3609,51 @@ SILENT = [
     dict(name='jsrun: node lookup in early-continue form', edits=[
         (_J, "                if node['index'] == slot['node_index']:\n                    node_found = True\n                    break\n",
              "                if node['index'] != slot['node_index']:\n                    continue\n                node_found = True\n                break\n")]),
+    dict(name='mem amount hoisted into a local', edits=[
+        (_B, "            if slot['mem']:\n                if new_state == rpc.BUSY:\n                    node['mem'] -= slot['mem']\n                else:\n                    node['mem'] += slot['mem']\n",
+             "            amount = slot['mem']\n            if amount:\n                if new_state == rpc.BUSY:\n                    node['mem'] -= amount\n                else:\n                    node['mem'] += amount\n")]),
+    dict(name='early continue when the slot holds neither lfs nor mem', edits=[
+        (_B, "            if slot['lfs']:\n                if new_state == rpc.BUSY:\n                    node['lfs'] -= slot['lfs']\n                else:\n                    node['lfs'] += slot['lfs']\n",
+             "            if not slot['lfs'] and not slot['mem']:\n                continue\n\n            if slot['lfs']:\n                if new_state == rpc.BUSY:\n                    node['lfs'] -= slot['lfs']\n                else:\n                    node['lfs'] += slot['lfs']\n")]),
+    dict(name='lfs/mem booked in a loop over the two kinds', edits=[
+        (_B, "            if slot['lfs']:\n                if new_state == rpc.BUSY:\n                    node['lfs'] -= slot['lfs']\n                else:\n                    node['lfs'] += slot['lfs']\n\n            if slot['mem']:\n                if new_state == rpc.BUSY:\n                    node['mem'] -= slot['mem']\n                else:\n                    node['mem'] += slot['mem']\n",
+             "            for kind in ('lfs', 'mem'):\n                held = slot[kind]\n                if not held:\n                    continue\n                if new_state == rpc.BUSY:\n                    node[kind] -= held\n                else:\n                    node[kind] += held\n")]),
+    dict(name='mem booking extracted into a helper method', edits=[
+        (_B, "            if slot['mem']:\n                if new_state == rpc.BUSY:\n                    node['mem'] -= slot['mem']\n                else:\n                    node['mem'] += slot['mem']\n",
+             '            self._book_mem(node, slot, new_state)\n'),
+        (_B, '    # --------------------------------------------------------------------------\n    #\n    # Change the reserved state of slots (rpc.FREE or rpc.BUSY)\n',
+             "    def _book_mem(self, where, what, state):\n        if not what['mem']:\n            return\n        if state == rpc.BUSY:\n            where['mem'] -= what['mem']\n        else:\n            where['mem'] += what['mem']\n\n    # --------------------------------------------------------------------------\n    #\n    # Change the reserved state of slots (rpc.FREE or rpc.BUSY)\n")]),
+    dict(name='jsrun: core maps flattened by a comprehension', edits=[
+        (_J, "            for core_map in slot['cores']:\n                for core in core_map:\n                    node['cores'][core] = new_state\n",
+             "            for cidx in [c for cmap in slot['cores'] for c in cmap]:\n                node['cores'][cidx] = new_state\n")]),
+    dict(name='Node.deallocate_slot with the amounts in locals', edits=[
+        (_N, '            if self.lfs is not None: self.lfs += slot.lfs\n            if self.mem is not None: self.mem += slot.mem\n',
+             '            storage, memory = slot.lfs, slot.mem\n            if self.mem is not None: self.mem += memory\n            if self.lfs is not None: self.lfs += storage\n')]),
+    dict(name='blocked test spelled with len()', edits=[
+        (_R, '        if blocked_cores or blocked_gpus:\n',
+             '        if len(blocked_cores) > 0 or len(blocked_gpus) > 0:\n')]),
+    dict(name='blocked test hoisted into a local', edits=[
+        (_R, '        if blocked_cores or blocked_gpus:\n',
+             '        any_blocked = bool(blocked_cores or blocked_gpus)\n        if any_blocked:\n')]),
+    dict(name='blocked test negated, marking in the else branch', edits=[
+        (_R, '        if blocked_cores or blocked_gpus:\n',
+             '        if not blocked_cores and not blocked_gpus:\n            pass\n        else:\n')]),
+    dict(name='blocked marking without the outer test (empty lists mark nothing)', edits=[
+        (_R, '        if blocked_cores or blocked_gpus:\n',
+             '        if True:\n')]),
+    dict(name='roll-back addresses the node inline', edits=[
+        (_N, '            for slot in slots:\n                node = self.nodes[slot.node_index]\n                node.deallocate_slot(slot)\n',
+             '            for slot in slots:\n                self.nodes[slot.node_index].deallocate_slot(slot)\n')]),
+    dict(name='roll-back with renamed locals and hoisted index', edits=[
+        (_N, '            for slot in slots:\n                node = self.nodes[slot.node_index]\n                node.deallocate_slot(slot)\n',
+             '            for found in slots:\n                owner_idx = found.node_index\n                owner = self.nodes[owner_idx]\n                owner.deallocate_slot(found)\n')]),
+    dict(name='release_slots finds the node by comparing indexes (early continue)', edits=[
+        (_N, '        for slot in slots:\n\n            node = self.nodes[slot.node_index]\n            node.deallocate_slot(slot)\n',
+             '        for slot in slots:\n\n            for node in self.nodes:\n                if node.index != slot.node_index:\n                    continue\n                node.deallocate_slot(slot)\n                break\n')]),
+    dict(name='Node.find_slot stamps the slot through a local', edits=[
+        (_N, '            slot = Slot(cores=cores, gpus=gpus, lfs=rr.lfs, mem=rr.mem,\n                        node_index=self.index, node_name=self.name)\n',
+             '            my_index = self.index\n            slot = Slot(cores=cores, gpus=gpus, lfs=rr.lfs, mem=rr.mem,\n                        node_name=self.name, node_index=my_index)\n')]),
+    dict(name='agent/service reservation through one local helper (seed C18-r7)', edits=[
+        (_R, '        if agent_nodes:\n\n            if not rm_info.agent_node_list:\n                for _ in range(agent_nodes):\n                    rm_info.agent_node_list.append(rm_info.node_list.pop())\n\n            assert agent_nodes == len(rm_info.agent_node_list)\n\n        if service_nodes:\n\n            if not rm_info.service_node_list:\n                for _ in range(service_nodes):\n                    rm_info.service_node_list.append(rm_info.node_list.pop())\n\n            assert service_nodes == len(rm_info.service_node_list)\n',
+             '        def _reserve(reserved, n_nodes):\n\n            if not n_nodes:\n                return\n\n            if not reserved:\n                for _ in range(n_nodes):\n                    reserved.append(rm_info.node_list.pop())\n\n            assert n_nodes == len(reserved)\n\n        _reserve(rm_info.agent_node_list,   agent_nodes)\n        _reserve(rm_info.service_node_list, service_nodes)\n')]),
 ]
